@@ -56,13 +56,13 @@ var canaries = map[string][]canary{}
 // propertyCanaries lists, per property, the rules whose canaries are run
 // after the property's own analysis.
 var propertyCanaries = map[string][]string{
-	"C01": {"STRIDE.stepbound", "STRIDE.flatfill", "ALPHA.noread", "STRIDE.fullrange", "STRIDE.unitidx", "FLAG.unitdiag", "BETA.noread", "BETA.quickret", "BETA.scaleguard", "FLAG.neginc", "STRIDE.index", "STRIDE.len", "STRIDE.start", "STRIDE.rowoffset", "STRIDE.extent", "FLAG.trans", "TWIN.generated", "ASM.units", "ASM.lost"},
-	"C02": {"STRIDE.argmaxbase", "WORK.init", "FLAG.cholorder", "ARGS.callee", "FLAG.unset", "FLAG.unitdiag", "WORKSIZE.fallback", "OKFLOW.loopstatus", "FACTKIND.pair", "ARGS.order", "ARGS.lencheck", "ARGS.query", "LOOPIDX.unused", "OKFLOW.report", "STRIDE.vecinc", "WORKSIZE.min", "WORKSIZE.querylen"},
+	"C01": {"ARGS.lenvalue", "STRIDE.stepbound", "STRIDE.flatfill", "ALPHA.noread", "STRIDE.fullrange", "STRIDE.unitidx", "FLAG.unitdiag", "BETA.noread", "BETA.quickret", "BETA.scaleguard", "FLAG.neginc", "STRIDE.index", "STRIDE.len", "STRIDE.start", "STRIDE.rowoffset", "STRIDE.extent", "FLAG.trans", "TWIN.generated", "ASM.units", "ASM.lost"},
+	"C02": {"ARGS.lenvalue", "STRIDE.argmaxbase", "WORK.init", "FLAG.cholorder", "ARGS.callee", "FLAG.unset", "FLAG.unitdiag", "WORKSIZE.fallback", "OKFLOW.loopstatus", "FACTKIND.pair", "ARGS.order", "ARGS.lencheck", "ARGS.query", "LOOPIDX.unused", "OKFLOW.report", "STRIDE.vecinc", "WORKSIZE.min", "WORKSIZE.querylen"},
 	"C03": {"LOOPFLAG.stale", "WORK.init", "FLAG.cholorder", "ARGS.callee", "FLAG.unset", "FLAG.unitdiag", "WORKSIZE.fallback", "GUARD.operand", "FLAG.uplomap", "STRIDE.veclda", "FACTKIND.pair", "LOOPIDX.origin", "ARGS.order", "ARGS.lencheck", "ARGS.query", "LOOPIDX.unused", "OKFLOW.report", "STRIDE.workld", "STRIDE.worknext", "WORKSIZE.min"},
 	"C04": {"USE.empty", "STRIDE.stepbound", "BAND.rowcol", "MAT.access", "MAT.selfguard", "ZEROED.paths", "SWAP.cond", "STRIDE.contig", "TWIN.bounds", "NILRECV"},
 	"C05": {"USE.empty", "MAT.doublepass", "OVERLAP.lattice", "MAT.guardorder", "FACT.alias", "OVERLAP.extent", "OVERLAP.guard", "MODSET.mat", "OVERLAP.symmetric", "TWIN.shadow"},
-	"C06": {"FACT.alias", "FACT.failstate", "INIT.state", "ERR.overwrite", "ERR.swallow", "FACT.deadloop", "FACT.reuse", "FLAG.unset", "OKFLOW.condpath", "FACT.condafter", "FACTKIND.pair", "OKFLOW.use", "OKFLOW.cond", "OKFLOW.report", "FACT.normorder", "FACT.state", "FACT.condunit", "NILRECV"},
-	"C07": {"MAT.access", "ARGS.callee", "ARGS.ldcols", "ARGS.workquery", "ARGS.condlen", "ARGS.arms", "ARGS.strict", "ARGS.fullrow", "WORKSIZE.querylen", "ARGS.order", "ARGS.lencheck", "ARGS.query", "MAT.order", "ASM.window", "ASM.tail", "STRIDE.len"},
+	"C06": {"FACT.condpath", "FACT.alias", "FACT.failstate", "INIT.state", "ERR.overwrite", "ERR.swallow", "FACT.deadloop", "FACT.reuse", "FLAG.unset", "OKFLOW.condpath", "FACT.condafter", "FACTKIND.pair", "OKFLOW.use", "OKFLOW.cond", "OKFLOW.report", "FACT.normorder", "FACT.state", "FACT.condunit", "NILRECV"},
+	"C07": {"ARGS.lenvalue", "MAT.access", "ARGS.callee", "ARGS.ldcols", "ARGS.workquery", "ARGS.condlen", "ARGS.arms", "ARGS.strict", "ARGS.fullrow", "WORKSIZE.querylen", "ARGS.order", "ARGS.lencheck", "ARGS.query", "MAT.order", "ASM.window", "ASM.tail", "STRIDE.len"},
 	"C08": {"STRIDE.fullrange", "BETA.scaleguard", "CONSTFOLD.underflow", "ASM.lost", "PARAMUSE.read", "ASM.window", "ASM.tail", "ASM.units", "STRIDE.extent", "SIB.guards"},
 	"C09": {"CALLBACK.owncopy", "GOPROTO.latch", "GOPROTO.lockexit", "RAW.stride", "GOPROTO.accumzero", "GOPROTO.semcap", "GOPROTO.scratch", "GLOBAL.write", "GOPROTO.capture", "GOPROTO.lockpair", "GOPROTO.sibling", "POOL.uaf"},
 	"C12": {"ITER.remaining", "GRAPHINV.rangefirst", "GRAPHINV.diag", "GRAPHINV.nilentry", "GRAPHINV.mapinit", "GRAPHINV.relit", "GRAPHINV.together", "GRAPHINV.expose", "SWAP.cond", "GRAPHINV.prune", "TWIN.sibguard", "GRAPHINV.panicorder", "GRAPHINV.absent", "GRAPHINV.iterreset", "GRAPHINV.converse", "GRAPHINV.uid", "GRAPHINV.iter", "TWIN.sibstate"},
@@ -121,6 +121,8 @@ func init() {
 		{"STATUS.dropped", "optimize/local.go", "\tif status != NotTerminated {\n\t\t// The starting location already satisfies the gradient threshold.\n\t\tl.finishMethodDone(operation, result, task)\n\t\treturn status, nil\n\t}\n", "", func() *core.Result { return errx.RunStatusDropped(def, core.Pkgs("./optimize")) }},
 		{"CALLBACK.owncopy", "diff/fd/gradient.go", "\t\tcopy(xcopy, x)\n\t\toriginValue = f(xcopy)", "\t\tcopy(xcopy, x)\n\t\toriginValue = f(x)", func() *core.Result { return settingsx.RunCallbackCopy(def, core.Pkgs("./diff/fd")) }},
 		{"USE.empty", "mat/vector.go", "\tif v.IsEmpty() || (v.mat.Inc == 1 && n <= v.mat.N) {\n", "\tif v.IsEmpty() || n <= v.mat.N {\n", func() *core.Result { return zeroed.RunUseEmpty(def) }},
+		{"ARGS.lenvalue", "lapack/gonum/dlange.go", "\t\tfor i := 0; i < m; i++ {\n\t\t\tscale, sum = impl.Dlassq(n, a[i*lda:], 1, scale, sum)\n\t\t}\n\t\treturn scale * math.Sqrt(sum)", "\t\tif lda == n {\n\t\t\tscale, sum = impl.Dlassq(len(a), a, 1, scale, sum)\n\t\t\treturn scale * math.Sqrt(sum)\n\t\t}\n\t\tfor i := 0; i < m; i++ {\n\t\t\tscale, sum = impl.Dlassq(n, a[i*lda:], 1, scale, sum)\n\t\t}\n\t\treturn scale * math.Sqrt(sum)", func() *core.Result { return flagx.RunLenValue(def, core.Pkgs("./lapack/gonum")) }},
+		{"FACT.condpath", "mat/lu.go", "\t\tlu.lu.Copy(orig.lu)\n\t\tlu.ok = orig.ok\n\t}\n", "\t\tlu.lu.Copy(orig.lu)\n\t\tlu.ok = orig.ok\n\t}\n\tif alpha == 0 {\n\t\treturn\n\t}\n", func() *core.Result { return factx.Run(def) }},
 		{"ARGS.workquery", "lapack/gonum/dgeqrf.go", "case len(work) < max(1, lwork):", "case len(work) < lwork:", func() *core.Result { return flagx.RunWorkQuery(def, core.Pkgs("./lapack/gonum")) }},
 		{"ARGS.callee", "lapack/gonum/dsytrd.go", "case len(d) < n:", "case len(d) < n-1:", func() *core.Result { return worksize.RunCallee(def, core.Pkgs("./lapack/gonum")) }},
 		{"GRAPHINV.together", "graph/simple/weighted_undirected.go", "\tif fm, ok := g.edges[fid]; ok {\n\t\tfm[tid] = e\n\t} else {", "\tif fm, ok := g.edges[fid]; ok {\n\t\t_, exists := fm[tid]\n\t\tfm[tid] = e\n\t\tif exists {\n\t\t\treturn\n\t\t}\n\t} else {", func() *core.Result { return graphinv.Run(def) }},
